@@ -1,19 +1,21 @@
 package main
 
 import (
-	"sync/atomic"
 	"context"
 	"encoding/json"
 	"fmt"
 	"os"
 	"runtime"
+	"sync/atomic"
 	"time"
 
+	"github.com/bmeg/grip/config"
 	"github.com/bmeg/grip/engine/pipeline"
 	"github.com/bmeg/grip/gdbi"
 	"github.com/bmeg/grip/gripql"
 	"github.com/bmeg/grip/kvgraph"
 	"github.com/bmeg/grip/kvi"
+	"github.com/bmeg/grip/server"
 	"google.golang.org/protobuf/types/known/structpb"
 
 	"gripverif/internal/coq"
@@ -35,6 +37,9 @@ type c07Stage struct {
 }
 type c07Input struct {
 	DeadlineS int `json:"deadline_s,omitempty"` // seconds to wait for the stream to close (default 25)
+	// "server": the program runs through the server's Traversal handler; Cancel = the client goes away after that many rows
+	// (Send fails from then on and the stream's context is cancelled, as gRPC does)
+	Via    string     `json:"via,omitempty"`
 	Graph  c07Graph   `json:"graph"`
 	Prog   []tStmt    `json:"prog"`
 	Scan   int64      `json:"scan"`   // rows the first statement yields
@@ -177,6 +182,9 @@ func pipeWorker(req json.RawMessage) interface{} {
 	defer cancel()
 	start := time.Now()
 	atomic.StoreInt64(&cursorAdvances, 0)
+	if in.Via == "server" {
+		return serverRun(in, wd, base)
+	}
 	res := pipeline.Run(ctx, pipe, wd)
 	ob := c07Obs{}
 	dl := 25
@@ -204,6 +212,63 @@ loop:
 			in.Cancel = -2
 		}
 	}
+	ob.Millis = time.Since(start).Milliseconds()
+	if ob.Closed {
+		ob.Nexts = atomic.LoadInt64(&cursorAdvances)
+		ob.Leak = settle(base, 3*time.Second)
+		if ob.Leak < 0 {
+			ob.Leak = 0
+		}
+		ents, _ := os.ReadDir(wd)
+		ob.Tmp = len(ents)
+	}
+	return ob
+}
+
+// a client that goes away: Send fails from then on and the context of the stream is cancelled
+type dropStream struct {
+	fakeStream
+	after  int64
+	sent   int64
+	cancel context.CancelFunc
+}
+
+func (d *dropStream) Send(r *gripql.QueryResult) error {
+	if d.after >= 0 && atomic.LoadInt64(&d.sent) >= d.after {
+		d.cancel()
+		return fmt.Errorf("rpc error: code = Unavailable desc = transport is closing")
+	}
+	atomic.AddInt64(&d.sent, 1)
+	return nil
+}
+
+func serverRun(in c07Input, wd string, base int) c07Obs {
+	conf := config.DefaultConfig()
+	conf.Server.WorkDir = wd
+	conf.Default = "d"
+	sdir, _ := os.MkdirTemp(os.Getenv("C07ROOT"), "c07srv")
+	defer os.RemoveAll(sdir)
+	srv, err := server.NewVerifServer(conf, sdir, map[string]gdbi.GraphDB{"d": pipeEnv.db}, sdir+"/jobs")
+	if err != nil {
+		return c07Obs{Err: "server: " + err.Error()}
+	}
+	ctx, cancel := context.WithCancel(context.Background())
+	defer cancel()
+	st := &dropStream{fakeStream: fakeStream{ctx}, after: in.Cancel, cancel: cancel}
+	done := make(chan error, 1)
+	start := time.Now()
+	go func() { done <- srv.Traversal(&gripql.GraphQuery{Graph: "g", Query: progProto(in.Prog)}, st) }()
+	ob := c07Obs{}
+	dl := 25
+	if in.DeadlineS > 0 {
+		dl = in.DeadlineS
+	}
+	select {
+	case <-done:
+		ob.Closed = true
+	case <-time.After(time.Duration(dl) * time.Second):
+	}
+	ob.Rows = atomic.LoadInt64(&st.sent)
 	ob.Millis = time.Since(start).Milliseconds()
 	if ob.Closed {
 		ob.Nexts = atomic.LoadInt64(&cursorAdvances)
@@ -247,7 +312,7 @@ func c07Inputs(ctx *Ctx) []c07Input {
 			if n >= 5001 {
 				// the scan must stop soon after the limit is satisfied: what it may still read is bounded by the channels
 				// between the steps (100 rows each), far below the size of the graph
-				out[len(out)-1].NextBound = 12000 // a scan that does not stop costs > 20000 here (5001 vertices, each looked up in both directions)
+				out[len(out)-1].NextBound = 25000 // a scan that does not stop costs > 40000 here (5001 vertices, each looked up in both directions)
 				out = append(out, c07Input{Graph: g, Prog: []tStmt{V, {Op: "limit", N: 10}}, Scan: N, Stages: []c07Stage{{"limit", 10}}, Cancel: -1, NextBound: 1500},
 					c07Input{Graph: g, Prog: []tStmt{{Op: "E"}, {Op: "limit", N: 7}}, Scan: N * int64(d), Stages: []c07Stage{{"limit", 7}}, Cancel: -1, NextBound: 1500})
 			}
@@ -279,6 +344,11 @@ func c07Inputs(ctx *Ctx) []c07Input {
 					out = append(out, c07Input{Graph: g, Prog: []tStmt{V, st("both")}, Scan: N, Stages: []c07Stage{fan(2 * d)}, Cancel: c})
 					out = append(out, c07Input{Graph: g, Prog: []tStmt{V, st("out"), st("outE")}, Scan: N, Stages: []c07Stage{fan(d), fan(d)}, Cancel: c})
 				}
+				// the same through the server's Traversal handler with a client that goes away (and one that stays)
+				for _, c := range []int64{10, 150, -1} {
+					out = append(out, c07Input{Graph: g, Prog: []tStmt{V, st("both")}, Scan: N, Stages: []c07Stage{fan(2 * d)}, Cancel: c, Via: "server"})
+				}
+				out = append(out, c07Input{Graph: g, Prog: []tStmt{V, st("out"), st("outE")}, Scan: N, Stages: []c07Stage{fan(d), fan(d)}, Cancel: 1, Via: "server"})
 			}
 		}
 	}
@@ -315,7 +385,7 @@ func runC07(ctx *Ctx) error {
 	ctx.Shard = 400
 	ctx.Scope = "N_scope"
 	ctx.Exhaustive = true
-	ctx.Rule = "grid: circulant graphs (N vertices, out-degree d in {1,3}) with N in {0,1,99,101,1001,2300,5001} (thorough adds 100,999,1000,2001,5000,12000,26000: below, at and several multiples above every internal capacity 100/1000/5000) x 15 cycle-free programs (scan, out, both, bothE, E.both, outE.out, both.limit, both.count, both.distinct, both.aggregate(term), both.aggregate(percentile / percentile+term / histogram over a field that holds text on one vertex in 997; twelve aggregations in one step), both.both, bothE.both.bothE) and star graphs (hub with M leaves, M in {1,300,999,1001,2300,5001,7500}; thorough 1000,2001,12000,30000) x 9 programs that fan one traveler out into M (two of them with a limit behind the fan-out); cancellation after 0/1/150/5001/10 rows on the large ones; each run through the production compiler and pipeline.Run on badger in a worker sub-process with a 25 s deadline; observed: stream closed, rows, goroutines above the pre-run baseline after settling, entries left in the work directory, cursor advances on the store (bounded for limit programs on the large graphs: a satisfied limit stops the scan behind it); non-trivial = more rows than the smallest internal buffer (100); distinct by input"
+	ctx.Rule = "grid: circulant graphs (N vertices, out-degree d in {1,3}) with N in {0,1,99,101,1001,2300,5001} (thorough adds 100,999,1000,2001,5000,12000,26000: below, at and several multiples above every internal capacity 100/1000/5000) x 15 cycle-free programs (scan, out, both, bothE, E.both, outE.out, both.limit, both.count, both.distinct, both.aggregate(term), both.aggregate(percentile / percentile+term / histogram over a field that holds text on one vertex in 997; twelve aggregations in one step), both.both, bothE.both.bothE) and star graphs (hub with M leaves, M in {1,300,999,1001,2300,5001,7500}; thorough 1000,2001,12000,30000) x 9 programs that fan one traveler out into M (two of them with a limit behind the fan-out); cancellation after 0/1/150/5001/10 rows on the large ones, also through the server's Traversal handler with a client that goes away after 1/10/150 rows (Send fails, the stream's context is cancelled); each run through the production compiler and pipeline.Run on badger in a worker sub-process with a 25 s deadline; observed: stream closed, rows, goroutines above the pre-run baseline after settling, entries left in the work directory, cursor advances on the store (bounded for limit programs on the large graphs: a satisfied limit stops the scan behind it); non-trivial = more rows than the smallest internal buffer (100); distinct by input"
 	var inputs []c07Input
 	if ctx.Replay != nil {
 		var in c07Input
